@@ -71,6 +71,7 @@ def parseArg (t : String) : Option Arg :=
       | none => match (if (v.splitOn ":").length == 3 then parseSvc v else none) with
         | some s => some (.svc s)
         | none => some (.s (if v == "~" then "" else v))
+    else if k == "al" then some (.s v)                                  -- a comma-joined list of addresses: a string argument
     else if k == "u" then some (match v.toNat? with | some n => .u n | none => .badnum)
     else if k == "b" then some (.b (v == "1"))
     else if k == "x" || k == "ibtp" || k == "addrs" then some .opq      -- bytes arguments: opaque to the model
